@@ -357,6 +357,58 @@ theorem zscan_same_walk (g : Cfg) (hg : g.ok) (z : List (Bytes × Int)) (cursor 
   · rw [sscan_eq_scanSlots g hg hh]
     simp [List.map_map, Function.comp_def]
 
+/-! ### The TYPE option -/
+
+/-- `handle_scan` lower-cases the TYPE value before the engine compares it with the lower-case type
+    names.  Stops checking when that normalisation disappears (then `type_filter_case_sensitive_fails`
+    describes the tree again). -/
+theorem tree_type_filter_folds_case : Gen.scanCfg.typeFold = true := by decide
+
+/-- With the normalisation the filter the engine applies is the prescribed one: the type name
+    without regard to the case of ASCII letters (an unknown name selects nothing). -/
+theorem type_filter_is_spec (g : Cfg) (hf : g.typeFold = true) (ty : Option Bytes) (t : Nat) :
+    typeOk (Code.typeArg g ty) t = Spec.typeOk ty t := by
+  cases ty <;> simp [Code.typeArg, hf, typeOk, Spec.typeOk]
+
+/-- **`TYPE` ignores the case of the name**: two spellings of the same name (`string`, `STRING`,
+    `String`, …) give the same reply, for every database, cursor, COUNT and MATCH. -/
+theorem type_filter_ignores_case (g : Cfg) (hf : g.typeFold = true) (db : Db) (cursor count : Nat) (pat : Option Bytes)
+    (s s' : Bytes) (h : s.map lowerAscii = s'.map lowerAscii) :
+    Code.scanCmd g db cursor count pat (some s) = Code.scanCmd g db cursor count pat (some s') := by
+  simp [Code.scanCmd, Code.typeArg, hf, h]
+
+/-- Soundness of the command for every spelling: every returned key exists, has the type named
+    by `TYPE` (case ignored) and passes MATCH. -/
+theorem scan_cmd_sound_type (g : Cfg) (hg : g.ok) (hf : g.typeFold = true) (db : Db) (cursor count : Nat)
+    (pat ty : Option Bytes) (k : Bytes) (hk : k ∈ (Code.scanCmd g db cursor count pat ty).2) :
+    (∃ t, (k, t) ∈ db ∧ Spec.typeOk ty t = true) ∧ Code.matchOpt g.lossy pat k = true := by
+  obtain ⟨⟨t, ht, hok⟩, hm⟩ := scan_sound g hg db cursor count pat (Code.typeArg g ty) k hk
+  exact ⟨⟨t, ht, by rw [← type_filter_is_spec g hf ty t]; exact hok⟩, hm⟩
+
+/-- Completeness of the command restricted to the keys of the named type, for every spelling (slot
+    cursor, full strength): a key that has that type (case of the name ignored) in every database
+    of the history and passes MATCH is returned by the iteration. -/
+theorem scan_cmd_complete_type (g : Cfg) (hg : g.ok) (hf : g.typeFold = true) (count : Nat) (pat ty : Option Bytes)
+    (hist : List Db)
+    (hfin : Code.iterSFinishes g scanSlot (Code.matchOpt g.lossy pat) count 0 (hist.map (viewSlot (Code.typeArg g ty))) = true)
+    (k : Bytes) (hk : ∀ db ∈ hist, ∃ t, (k, t) ∈ db ∧ Spec.typeOk ty t = true)
+    (hm : Code.matchOpt g.lossy pat k = true) :
+    k ∈ (Code.iterS g scanSlot (Code.matchOpt g.lossy pat) count 0 (hist.map (viewSlot (Code.typeArg g ty)))).flatten := by
+  apply scan_complete g hg count pat (Code.typeArg g ty) hist hfin k _ hm
+  intro db hdb
+  obtain ⟨t, ht, hok⟩ := hk db hdb
+  exact ⟨t, ht, by rw [type_filter_is_spec g hf ty t]; exact hok⟩
+
+/-- **Without the normalisation the statement is false**: key `a` is a string; `SCAN 0 TYPE STRING`
+    ends the iteration at once with no key, although `STRING` names the type of `a`; with the
+    normalisation the same command returns `a`. -/
+theorem type_filter_case_sensitive_fails :
+    Code.cmdScan { Gen.scanCfg with typeFold := false } [([97], 0)] [[48], [84, 89, 80, 69], [83, 84, 82, 73, 78, 71]] = some (0, []) ∧
+    Spec.typeOk (some [83, 84, 82, 73, 78, 71]) 0 = true ∧
+    Code.cmdScan { Gen.scanCfg with typeFold := true } [([97], 0)] [[48], [84, 89, 80, 69], [83, 84, 82, 73, 78, 71]] = some (0, [[97]]) ∧
+    Code.cmdScan { Gen.scanCfg with typeFold := true } [([97], 0)] [[48], [116, 121, 112, 101], [83, 116, 82, 105, 78, 103]] = some (0, [[97]]) := by
+  decide
+
 /-! ### The MATCH matcher -/
 
 /-- MATCH on the current tree is byte-wise (the repaired matcher), so the full statement
